@@ -180,6 +180,12 @@ class WorldGen(object):
         # the caller may spell a store key with a trailing '#': it designates the same document
         store_keys = dict((u, u + "#" if rng.random() < 0.4 else u) for u in store_docs)
         instances = [self.instance(k.inst_depth, top=True) for _ in range(k.ninstances)]
+        if self.formats:
+            # strings that make the raising checkers raise, at the places the schemas look at
+            zrich = [{"a": "z", "zz": ["z", 5], "b": {"zz": "Zz", "a": []}},
+                     ["z", {"zz": "z", "a": 1}, 5, ["Zz"]],
+                     {"zz": {"a": "zz", "c": None}, "a": ["z"], "c": "x y"}]
+            instances[rng.randrange(len(instances))] = rng.choice(zrich)
         return {
             "draft": self.draft, "root_url": self.root_url, "root": root, "docs": docs,
             "store_docs": store_docs, "store_keys": store_keys, "custom": self.custom, "formats": self.formats,
@@ -212,6 +218,8 @@ class WorldGen(object):
                 out["items"] = refs[1]
         if rng.random() < 0.3:
             out.update(self.leaf(allow_bool=False))
+        if self.formats and rng.random() < 0.3:
+            out.update(self.motif_pin_then_fail(base, -1))
         return out
 
     # ------------------------------------------------------------ references
@@ -289,6 +297,8 @@ class WorldGen(object):
                             r2[self.idkw] = nid
                             return r2
                 return r
+        if self.formats and depth > 0 and rng.random() < 0.12:
+            return self.motif_pin_then_fail(base, index)
         if depth <= 0 or p < k.ref_rate + 0.2:
             return self.leaf()
         s = self.applicator(base, index, depth, consumed)
@@ -309,6 +319,10 @@ class WorldGen(object):
             nid = self.nested_id(base)
             s[self.idkw] = nid
             base = urljoin(base, nid)
+        if rng.random() < 0.35:
+            # assertion keywords *before* the applicators of the same schema object: keyword order is
+            # evaluation order, and what an earlier keyword left behind matters to the later ones
+            s.update(self.leaf(allow_bool=False))
         d = depth - 1
         kinds = ["properties", "properties", "items", "items_array", "additionalProperties",
                  "patternProperties", "dependencies"]
@@ -381,12 +395,66 @@ class WorldGen(object):
                 s["x-also"] = self.schema(base, index, d, consumed)
         return s
 
+    def motif_pin_then_fail(self, base, index):
+        """A shape that history bugs like: inside ONE schema object, an earlier keyword swallows a format
+        failure whose checker *raised* (the exception lives on as an error's cause, with its traceback),
+        a later keyword fails below a reference / id scope, and the whole object sits under a keyword
+        that abandons its error iterator at the first error (not / if / contains / oneOf / disallow)."""
+        rng, d = self.rng, self.draft
+        f = {"format": rng.choice(["sim-noz", "sim-noz", "date", "ipv4"] if self.formats.get("builtin")
+                                  else ["sim-noz"])}
+        if d == "draft3":
+            absorbed = rng.choice([{"disallow": [f]}, {"type": [f, "any"]}])
+        else:
+            absorbed = rng.choice([{"not": f}, {"not": dict(f, type="object")}, {"anyOf": [f, {}]},
+                                   {"oneOf": [f, {}]}] + ([{"if": f}] if d == "draft7" else []))
+        fail = self.ref(base, index, True) or {"type": "null"}
+        if rng.random() < 0.3:
+            fail = {self.idkw: rng.choice(["sub/", "nested/n1.json"]), "allOf" if d != "draft3" else "extends": [fail]}
+        k1s = ["properties", "items", "additionalProperties", "patternProperties"] + (["propertyNames"] if self.modern else [])
+        k1 = rng.choice(k1s)
+        k2 = rng.choice([k for k in ["properties", "items", "additionalProperties", "patternProperties"] if k != k1])
+
+        def wrap(k, sub):
+            if k == "properties":
+                return dict((key, sub) for key in rng.sample(KEYS + ["zz"], 2))
+            if k == "patternProperties":
+                return {rng.choice(["^a", ".", "z"]): sub}
+            return sub
+        m = {}
+        if rng.random() < self.k.nested_id_rate:
+            m[self.idkw] = rng.choice(["sub/", "#frag", "nested/n1.json"])
+        m[k1] = wrap(k1, absorbed)
+        m[k2] = wrap(k2, fail)
+        forms = ["oneOf", "not"] if d != "draft3" else ["disallow"]
+        if self.modern:
+            forms.append("contains")
+        if d == "draft7":
+            forms.append("if")
+        w = rng.choice(forms)
+        if w == "oneOf":
+            return {"oneOf": [{}, m] + ([{"type": "null"}] if rng.random() < 0.3 else [])}
+        if w == "not":
+            return {"not": m}
+        if w == "disallow":
+            return {"disallow": [m]}
+        if w == "contains":
+            return {"contains": m}
+        return {"if": m, "then": self.leaf(), "else": self.leaf()}
+
     def objschema(self, base, index, depth, consumed):
         """A schema that is an object (draft 3 positions that do not take booleans)."""
         s = self.schema(base, index, depth, consumed)
         if not isinstance(s, dict):
             return {}
         return s
+
+    def format_name(self):
+        rng = self.rng
+        names = ["sim-noz", "sim-noz", "sim-evenlen", "sim-lower"]
+        if self.formats.get("builtin"):
+            names += ["ipv4", "date", "date"]
+        return rng.choice(names)
 
     def leaf(self, allow_bool=True):
         rng = self.rng
@@ -401,7 +469,7 @@ class WorldGen(object):
         if self.modern:
             kinds += ["const", "exclusive"]
         if self.formats:
-            kinds += ["format", "format"]
+            kinds += ["format", "format", "absorbed_format", "absorbed_format", "absorbed_format"]
         if self.custom and self.custom["keywords"]:
             kinds += ["x-marker"]
         if self.custom and self.custom["types"]:
@@ -455,7 +523,18 @@ class WorldGen(object):
             elif kind == "minProperties":
                 out["minProperties"] = rng.randint(0, 2)
             elif kind == "format":
-                out["format"] = rng.choice(self.formats["names"] + (["ipv4", "date"] if self.formats.get("builtin") else []))
+                out["format"] = self.format_name()
+            elif kind == "absorbed_format":
+                # a format failure (possibly one that *raises* inside the checker and is kept as the error's
+                # cause) that is swallowed by an is_valid-based or any-of keyword: validation goes on after it
+                f = {"format": self.format_name()}
+                forms = [("anyOf", [f, {}])] if d != "draft3" else [("disallow", [f]), ("type", [f, "any"])]
+                if d != "draft3":
+                    forms += [("not", f), ("not", f), ("oneOf", [f, {}])]
+                if d == "draft7":
+                    forms += [("if", f)]
+                k2, v2 = rng.choice(forms)
+                out[k2] = v2
             elif kind == "x-marker":
                 out["x-marker"] = rng.choice(PYTYPES)
             elif kind == "addl_false":
